@@ -444,6 +444,33 @@ def _r_empty_targets(f):
         return "There are not target classes" in str(e)
 
 
+@trigger("bnode_in_inverse_value_set")
+def _t_bnode_value_set(f, obs):
+    """inverse_paths and a blank node that is an instance of a class which is itself a selected instance: the incoming instantiation
+    constraint of that class names the blank node in a value set"""
+    cfg, g = obs.get("cfg") or {}, obs.get("triples") or []
+    if not cfg.get("inverse"):
+        return False
+    ip = cfg.get("inst_prop")
+    typed = {s for s, p, o in g if p == ip}
+    return any(p == ip and s[0] == 'B' and o in typed for s, p, o in g)
+
+
+@replayer("bnode_in_inverse_value_set")
+def _r_bnode_value_set(f):
+    from shexer.shaper import Shaper
+    from shexer import consts as C
+    T = '<http://www.w3.org/1999/02/22-rdf-syntax-ns#type>'
+    nt = '_:b0 %s <http://example.org/C> .\n<http://example.org/C> %s <http://example.org/Meta> .\n' % (T, T)
+    shexc = Shaper(raw_graph=nt, input_format=C.NT, all_classes_mode=True, inverse_paths=True).shex_graph(string_output=True)
+    try:
+        Shaper(raw_graph=nt, input_format=C.NT, all_classes_mode=True, inverse_paths=True).shex_graph(string_output=True, output_format=C.SHACL_TURTLE)
+        crashed = False
+    except ValueError:
+        crashed = True
+    return "_:b0" in shexc and crashed
+
+
 # ------------------------------------------------------------------ C19
 @trigger("rdflib_bnodes_order")
 def _t_c19_bn(f, obs):
